@@ -23,6 +23,7 @@ type UnitResult struct {
 	Secs       float64
 	Instrs     int
 	LoopsAnnot int
+	DeadReturns []int // return sites (in execution order) that are unreachable under the assumptions
 }
 
 type Options struct {
@@ -140,47 +141,36 @@ func verifyUnit(w *World, u *Unit, opt Options) *UnitResult {
 		chunk = 1
 	}
 	var wg sync.WaitGroup
-	prove := func(obs []*Obligation) {
-		defer wg.Done()
-		if len(obs) > 1 {
-			lo := obs[0].Index
-			hi := obs[len(obs)-1].Index + 1
-			r := solve(ex.batchQuery(lo, hi), fmt.Sprintf("%s.b%d", sanitize(u.Name), lo), opt.TimeoutMs, false, false)
-			if r.Status == "unsat" {
-				r.Batch = true
-				for _, ob := range obs {
-					ob.Result = r
+	work := make(chan *Obligation)
+	for k := 0; k < 8; k++ {
+		wg.Add(1)
+		go func() {
+			defer wg.Done()
+			for ob := range work {
+				q := ex.queryFor(ob)
+				ob.QueryBytes = len(q)
+				ob.Result = solve(q, fmt.Sprintf("%s.o%d", sanitize(u.Name), ob.Index), opt.TimeoutMs, opt.Thorough, true)
+				if ob.Result.Status != "unsat" && ob.Result.Status != "sat" && ob.Result.Status != "unsat-single" {
+					// no verdict: look for a candidate counterexample in a weakened query
+					mr := solve(modelQuery(q), fmt.Sprintf("%s.m%d", sanitize(u.Name), ob.Index), opt.TimeoutMs, false, true)
+					if mr.Status == "sat" {
+						ob.Result.Model = mr.Model
+						ob.Result.Candidate = true
+						ob.Result.Output += "\ncandidate model from the weakened query (" + mr.Solver + "):\n" + mr.Output
+					}
 				}
-				return
+			}
+		}()
+	}
+	go func() {
+		for _, ob := range ex.obls {
+			if !ob.ExpectSat {
+				work <- ob
 			}
 		}
-		var wg2 sync.WaitGroup
-		for _, ob := range obs {
-			ob := ob
-			wg2.Add(1)
-			go func() {
-				defer wg2.Done()
-				ob.Result = solve(ex.queryFor(ob), fmt.Sprintf("%s.o%d", sanitize(u.Name), ob.Index), opt.TimeoutMs, opt.Thorough, true)
-			}()
-		}
-		wg2.Wait()
-	}
-	var cur []*Obligation
-	for _, ob := range ex.obls {
-		if ob.ExpectSat {
-			continue
-		}
-		cur = append(cur, ob)
-		if len(cur) >= chunk {
-			wg.Add(1)
-			go prove(cur)
-			cur = nil
-		}
-	}
-	if len(cur) > 0 {
-		wg.Add(1)
-		go prove(cur)
-	}
+		close(work)
+	}()
+	_ = chunk
 	// vacuity: some return site must be reachable under the assumptions
 	vac := make(chan string, 1)
 	go func() {
@@ -199,6 +189,24 @@ func verifyUnit(w *World, u *Unit, opt Options) *UnitResult {
 			vac <- "unknown"
 		}
 	}()
+	// every return site should be reachable: an unreachable one usually means contradictory assumptions on that path
+	var dmu sync.Mutex
+	var dwg sync.WaitGroup
+	for i, rr := range ex.returnReach {
+		i, rr := i, rr
+		dwg.Add(1)
+		go func() {
+			defer dwg.Done()
+			q := ex.header() + ex.prefix(len(ex.items)) + "(assert " + rr + ")\n"
+			r := solve(q, fmt.Sprintf("%s.dead%d", sanitize(u.Name), i), 3000, false, false)
+			if r.Status == "unsat" {
+				dmu.Lock()
+				res.DeadReturns = append(res.DeadReturns, i+1)
+				dmu.Unlock()
+			}
+		}()
+	}
+	dwg.Wait()
 	wg.Wait()
 	res.Vacuity = <-vac
 	res.Secs = time.Since(t0).Seconds()
